@@ -354,6 +354,17 @@ class Ctx:
                 pr.fail(f"theorem {th} depends on {bad}")
             elif th in user:
                 pr.discharged += 1
+        # thorough tier: replay the compiled modules through Lean's independent re-checker
+        if self.tier == "thorough" and pr.ok and not os.environ.get("VERIF_NO_LEANCHECKER"):
+            mods = [m for m in import_closure(targets) if not m.startswith("Molli.Driver")]
+            try:
+                r = subprocess.run(["lake", "env", "leanchecker"] + mods, cwd=LEAN, capture_output=True, text=True, timeout=2400)
+                if r.returncode != 0:
+                    pr.fail("leanchecker rejected the modules: " + (r.stdout + r.stderr).strip()[-300:])
+                else:
+                    self.extra_cov["leanchecker_replayed"] = mods
+            except subprocess.TimeoutExpired:
+                self.notes.append("leanchecker replay timed out (not counted)")
         pr.auto_generated = len(pr.theorems) - len(user)
         pr.theorems = user
         pr.obligations = len(user)
